@@ -416,16 +416,28 @@ fn prove_base(kind: &str, air: &str, k: u32, n: usize, p: &PSet) -> Result<Pf, S
     let cfg = mk_cfg(p, p);
     if kind == "batch" {
         // as `prove_dummy_circuit` in recursion/examples/recursive_aggregation.rs
+        // n = 10 * (number of ALU operations) + ALU lanes; n = 0: the dummy circuit of the example (no ALU op, one lane)
+        let (ops, lanes) = (n / 10, (n % 10).max(1));
         let mut b = CircuitBuilder::<F>::new();
         let c = b.alloc_const(F::from_u32(k.max(1)), "dummy");
+        // with ALU operations the chain starts from a public input (constants would be folded away by the builder)
+        let x = if ops > 0 { Some(b.alloc_public_input("x")) } else { None };
         let e = b.alloc_public_input("expected");
-        b.connect(c, e);
+        let mut acc = x.unwrap_or(c);
+        let mut accv = F::from_u32(k.max(1));
+        for i in 0..ops {
+            let m = b.alloc_const(F::from_u32(3 + i as u32), "factor");
+            acc = b.mul(acc, m);
+            accv *= F::from_u32(3 + i as u32);
+        }
+        b.connect(acc, e);
         let circuit = b.build().map_err(|e| format!("{e:?}"))?;
-        let tp = TablePacking::new(1, 1).with_fri_params(0, p.log_blowup);
+        let tp = TablePacking::new(1, lanes).with_fri_params(0, p.log_blowup);
         let (ad, pc, npc) = get_airs_and_degrees_with_prep::<Cfg, F, 1>(&circuit, &tp, &[], &[], ConstraintProfile::Standard).map_err(|e| format!("{e:?}"))?;
         let (airs, degrees): (Vec<_>, Vec<usize>) = ad.into_iter().unzip();
         let mut r = circuit.runner();
-        r.set_public_inputs(&[F::from_u32(k.max(1))]).map_err(|e| format!("{e:?}"))?;
+        let pubs: Vec<F> = if ops > 0 { vec![F::from_u32(k.max(1)), accv] } else { vec![accv] };
+        r.set_public_inputs(&pubs).map_err(|e| format!("{e:?}"))?;
         let traces = r.run().map_err(|e| format!("{e:?}"))?;
         let cpd = CircuitProverData::new(ProverData::from_airs_and_degrees(&cfg, &airs, &degrees), pc, npc);
         let prover = BatchStarkProver::new(cfg).with_table_packing(tp);
